@@ -195,6 +195,9 @@ func prepare() {
 	mk("tampered-size", "p256-0", sthSize+1, sthTS, rt, func(s *sthT, k *pki.Key) { s.intact = false; s.sig = append([]byte(nil), genuine...) })
 	mk("tampered-timestamp", "p256-0", sthSize, sthTS+1, rt, func(s *sthT, k *pki.Key) { s.intact = false; s.sig = append([]byte(nil), genuine...) })
 	mk("tampered-root", "p256-0", sthSize, sthTS, mkRoot("another tree"), func(s *sthT, k *pki.Key) { s.intact = false; s.sig = append([]byte(nil), genuine...) })
+	// a root hash field that is longer than a SHA-256 value and starts with the one that was signed (33 and 64 bytes)
+	mk("root33-signed-prefix", "p256-0", sthSize, sthTS, append(append([]byte(nil), rt...), 0), func(s *sthT, k *pki.Key) { s.intact = false; s.sig = append([]byte(nil), genuine...) })
+	mk("root64-signed-prefix", "p256-0", sthSize, sthTS, append(append([]byte(nil), rt...), rt...), func(s *sthT, k *pki.Key) { s.intact = false; s.sig = append([]byte(nil), genuine...) })
 }
 
 func cleanup() { os.RemoveAll(mat.dir) }
@@ -364,6 +367,7 @@ func buildFields() {
 		sth("valid", false), sth("valid-rsa", false), sth("valid-size0", true), sth("badsig", false), sth("root31", false),
 		sth("garbagesig", false), sth("trailing", true), sth("wrongalg", true), sth("emptymsg", false),
 		sth("tampered-size", false), sth("tampered-timestamp", true), sth("tampered-root", false),
+		sth("root33-signed-prefix", false), sth("root64-signed-prefix", true),
 	}})
 
 	add(field{"not_after_start", tsValues(func(c *configpb.LogConfig, t *truth, ts *timestamppb.Timestamp, tt tsT) {
